@@ -106,10 +106,22 @@ def judge(ln):
                 judged += 1
                 if cls != 'ok': return ('fail', 'valid-point-refused', 'one of the first three points was refused')
             if cls == 'ok':
-                # a repeated point (within the 1e-5 coincidence tolerance of the last vertex) may be absorbed
-                rep = bool(prev.pts) and all(abs(prev.pts[-1][c] - p[c]) < Fraction(1, 10**5) for c in range(3))
-                if rep and S.tokens == prev.tokens: pass
-                elif not S.pts or S.pts[-1] != p: return ('fail', 'pushed-point-not-last', 'after a successful push the point is neither the last vertex nor a repeat of it')
+                # the outline after an accepted push: the old one minus the trailing vertices the new point makes redundant
+                # (collinear with their neighbours / coincident), plus the point unless it repeats the (new) last vertex
+                close_to = lambda u, v, t: all(abs(u[c] - v[c]) < t for c in range(3))
+                if S.pts and S.pts == prev.pts[:len(S.pts)] and close_to(S.pts[-1], p, Fraction(1, 10**5)): k = len(S.pts)
+                elif S.pts and S.pts[-1] == p and S.pts[:-1] == prev.pts[:len(S.pts) - 1]: k = len(S.pts) - 1
+                else: return ('fail', 'pushed-point-not-last', 'after a successful push the outline is not the old one (minus trailing vertices) plus the point')
+                for j in range(k, n):
+                    if j == 0: return ('fail', 'first-vertex-dropped', 'a push dropped the only vertex')
+                    a_, b_ = prev.pts[j - 1], prev.pts[j]
+                    if close_to(a_, b_, Fraction(2, 10**5)) or close_to(b_, p, Fraction(2, 10**5)) or close_to(a_, p, Fraction(2, 10**5)): continue
+                    if fnorm(cross(sub(b_, a_), sub(p, b_))) > 2e-5:
+                        return ('fail', 'non-redundant-vertex-dropped', 'a push dropped vertex %d, which is not collinear with its neighbours' % j)
+                if len(S.pts) == n + 1 and n >= 2:
+                    a_, b_ = prev.pts[-2], prev.pts[-1]
+                    if fnorm(cross(sub(b_, a_), sub(p, b_))) < 5e-6:
+                        return ('fail', 'redundant-vertex-kept', 'a push kept a last vertex that the new point makes collinear with its neighbours')
                 if len(S.pts) >= 3 and not normal_ok(S):
                     return ('fail', 'normal-invalid-after-push', 'after an accepted push the loop has %d vertices but a non-unit / NaN normal' % len(S.pts))
         else:
